@@ -163,16 +163,43 @@ fn full_regex_rule(r: &mut Rng) -> String {
             // lower-cased unless $match-case, so the body has to be folded as well)
             let w = r.pick(gen::VOCAB);
             let w = match r.below(3) { 0 => w.to_string(), 1 => w.to_uppercase(), _ => { let mut c = w.chars(); c.next().map(|f| f.to_uppercase().collect::<String>() + c.as_str()).unwrap_or_default() } };
-            format!("/{}\\/[a-z]+{}/", w, r.pick(&["", "\\d", "\\:", ".*", "\\D", "\\W", "\\S\\d", "[0-9A-F]"]))
+            // (every escape whose letter is upper-case: \D \W \S \B and also \A \PL \x4A)
+            let head = r.pick(&["", "", "", "\\A[a-z]+\\:\\/\\/[a-z.0-9]+\\/"]);
+            format!("/{}{}\\/[a-z]+{}/", head, w, r.pick(&["", "\\d", "\\:", ".*", "\\D", "\\W", "\\S\\d", "[0-9A-F]", "\\PL", "\\B\\d", "\\x2F"]))
         }
     }
 }
 fn url_line(r: &mut Rng, rule: &str) -> String {
     if rule.len() > 2 && rule.starts_with('/') && rule.ends_with('/') && r.chance(2, 3) {
         // a URL for the /word\/[a-z]+.../ rules: the word in some case, letters, then a digit or ':'
-        let w = rule[1..].split('\\').next().unwrap_or("x");
+        // the word in front of `\/[a-z]+` (after an optional `\A…\/` head)
+        let core = &rule[1..rule.len() - 1];
+        let left = core.rsplit_once("\\/[a-z]+").map(|(a, _)| a).unwrap_or(core);
+        let w = left.rsplit("\\/").next().unwrap_or("x");
         let w = if r.chance(1, 2) { w.to_string() } else if r.chance(1, 2) { w.to_uppercase() } else { w.to_lowercase() };
-        return format!("https://{}/{}/{}{}", r.pick(gen::HOSTS), w, r.pick(&["abc", "x", "Ab"]), r.pick(&["", "7", ":", "/z"]));
+        let host = r.pick(gen::HOSTS);
+        let mid = r.pick(&["abc", "x", "Ab"]);
+        let tails = ["", "7", ":", "/z", "x7", ":7"];
+        // two thirds of the time a URL the expression (as written, case-insensitively) accepts
+        if r.chance(2, 3) {
+            let body = rule[1..rule.len() - 1].replace("\\/", "/").replace("\\:", ":");
+            if let Ok(re) = regex::RegexBuilder::new(&body).case_insensitive(true).unicode(false).build() {
+                for t in tails {
+                    let u = format!("https://{}/{}/{}{}", host, w, mid, t);
+                    if re.is_match(&u) {
+                        return u;
+                    }
+                }
+            }
+        }
+        return format!("https://{}/{}/{}{}", host, w, mid, r.pick(&tails));
+    }
+    if r.chance(1, 10) {
+        // the text the rule looks for only in the FRAGMENT of the URL
+        let u = gen::url_for(r, rule);
+        if let Some(i) = u.find("://").and_then(|a| u[a + 3..].find('/').map(|b| a + 3 + b)) {
+            return format!("{}/index.html#{}", &u[..i], &u[i..]);
+        }
     }
     match r.below(7) {
         0 | 1 => gen::url_for(r, rule),
@@ -269,6 +296,28 @@ fn coq_req(e: &Eval) -> String {
 }
 
 /// One oracle comparison; returns true when the pair was evaluated.
+/// The rule inside an ENGINE: an engine built from this one blocking rule blocks a script request to
+/// the URL exactly when the pattern semantics say the rule matches (the index must not lose it:
+/// tokens of the rule vs tokens of the request, fragment included).  Only asked where the per-rule
+/// matcher agrees with the semantics and outside C01's known classes (ASCII, no '*' in the URL,
+/// below the token cut-off, http(s)).
+fn engine_level(sm: &mut Summary, stats: &mut std::collections::BTreeMap<String, u64>, rule: &str, url: &str, want: bool) {
+    if rule.starts_with("@@") || url.contains('*') || !url.is_ascii() || !rule.is_ascii() || implrun::net::parse_net(rule).is_none() {
+        return;
+    }
+    let Ok(req) = Request::new(url, "https://source.example.org/", "script") else { return };
+    if !(req.is_http || req.is_https) || req.get_tokens().len() >= 128 {
+        return;
+    }
+    let eng = adblock::Engine::from_rules_parametrised([rule.to_string()].iter(), Default::default(), true, false);
+    let got = eng.check_network_request(&req).matched;
+    sm.oracle_evaluations += 1;
+    *stats.entry("oracle_engine_level".into()).or_insert(0) += 1;
+    if got != want {
+        sm.failure(None, &format!("rule {:?} on {:?}: the rule matches = {} by the pattern semantics and by NetworkFilter::matches, but an engine holding just this rule answers matched = {}", rule, url, want, got), json!({"rule": rule, "url": url, "engine": true}));
+    }
+}
+
 fn oracle(sm: &mut Summary, stats: &mut std::collections::BTreeMap<String, u64>, rule: &str, url: &str, e: &Eval) {
     let Some(hs) = e.hs else {
         *stats.entry("oracle_skipped_no_host_offset".into()).or_insert(0) += 1;
@@ -288,6 +337,8 @@ fn oracle(sm: &mut Summary, stats: &mut std::collections::BTreeMap<String, u64>,
             *stats.entry("oracle_full_regex_rules".into()).or_insert(0) += 1;
             if e.matches != want {
                 sm.failure(None, &format!("full-regex rule {:?} on {:?}: NetworkFilter::matches = {}, the regular expression (case-insensitive) says {}", rule, e.url, e.matches, want), json!({"rule": rule, "url": url}));
+            } else {
+                engine_level(sm, stats, rule, url, want);
             }
         }
         return;
@@ -297,6 +348,9 @@ fn oracle(sm: &mut Summary, stats: &mut std::collections::BTreeMap<String, u64>,
     let want = want0 && scheme_ok(e.mask, &e.url);
     sm.oracle_evaluations += 1;
     if e.matches == want {
+        if !degenerate(rule) && !host_right_pipe(rule) {
+            engine_level(sm, stats, rule, url, want);
+        }
         return;
     }
     let replay = json!({"rule": rule, "url": url});
@@ -438,6 +492,14 @@ fn replay(v: &Value, path: &std::path::Path) -> i32 {
             if want.is_some() && want != Some(e.matches) {
                 println!("VIOLATION property=C02 replay={}", path.display());
                 1
+            } else if rp["engine"].as_bool().unwrap_or(false) {
+                let eng = adblock::Engine::from_rules_parametrised([rule.to_string()].iter(), Default::default(), true, false);
+                let got = Request::new(url, "https://source.example.org/", "script").map(|q| eng.check_network_request(&q).matched).ok();
+                println!("engine holding just this rule: matched = {:?}", got);
+                if got.is_some() && got != want {
+                    println!("VIOLATION property=C02 replay={}", path.display());
+                    1
+                } else { 0 }
             } else {
                 0
             }
